@@ -481,3 +481,170 @@ Proof.
   eexists. eexists. split; [vm_compute; reflexivity|]. split; [vm_compute; reflexivity|].
   split; [reflexivity|]. unfold totals_spec. cbn. intros (_ & _ & H & _). discriminate.
 Qed.
+
+(* ---- read-back with failing chunk iterators ---- *)
+
+(* an error in any chunk is reported *)
+Lemma read_f_error_reported : forall chunks bound,
+  Exists (fun c : list (Z * Z) * bool => snd c = true) chunks -> snd (read_f chunks bound) = true.
+Proof.
+  induction chunks as [|[rem err] rest IH]; intros bound H; [inversion H|].
+  cbn [read_f]. destruct (read_chunk rem bound 0) as [[out b] t].
+  destruct err; [reflexivity|].
+  apply Exists_cons in H as [H|H]; [cbn in H; discriminate|].
+  destruct rest as [|c rest']; [inversion H|].
+  specialize (IH (Some match b with Some x => Z.max x (t + 1) | None => t + 1 end) H).
+  destruct (read_f (c :: rest') _) as [out' e]. exact IH.
+Qed.
+
+(* ... and nothing of the chunks after the failing one is yielded *)
+Lemma read_f_stops_at_error : forall pre l post bound,
+  Forall (fun c : list (Z * Z) * bool => snd c = false) pre ->
+  read_f (pre ++ (l, true) :: post) bound = read_f (pre ++ [(l, true)]) bound.
+Proof.
+  induction pre as [|[rem err] pre IH]; intros l post bound Hp.
+  - cbn [app read_f]. destruct (read_chunk l bound 0) as [[out b] t]. reflexivity.
+  - apply Forall_cons_iff in Hp as [He Hp]. cbn in He. subst err.
+    cbn [app read_f]. destruct (read_chunk rem bound 0) as [[out b] t].
+    assert (N1 : exists c r, pre ++ (l, true) :: post = c :: r) by (destruct pre; cbn; eauto).
+    assert (N2 : exists c r, pre ++ [(l, true)] = c :: r) by (destruct pre; cbn; eauto).
+    destruct N1 as (c1 & r1 & E1). destruct N2 as (c2 & r2 & E2).
+    rewrite E1, E2. rewrite <- E1, <- E2. rewrite (IH l post _ Hp). reflexivity.
+Qed.
+
+Lemma read_chunk_all : forall (rem : list (Z * Z)) bound c,
+  rem <> [] -> (match bound with Some x => Forall (fun s => x <= fst s) rem | None => True end) ->
+  read_chunk rem bound c = (rem, None, fst (last rem (0, 0))).
+Proof.
+  assert (Plain : forall (rem : list (Z * Z)) c, read_chunk rem None c =
+            (rem, None, match rem with [] => c | _ => fst (last rem (0, 0)) end)).
+  { induction rem as [|s r IH]; intros c; [reflexivity|]. cbn [read_chunk]. rewrite IH.
+    destruct r; reflexivity. }
+  intros rem bound c Hne Hb. destruct rem as [|s r]; [congruence|]. cbn [read_chunk].
+  assert (Hs : match bound with Some x => fst s <? x | None => false end = false).
+  { destruct bound as [x|]; [|reflexivity]. apply Forall_cons_iff in Hb as [H _]. apply Z.ltb_ge. exact H. }
+  rewrite Hs, Plain. destruct r; reflexivity.
+Qed.
+
+(* without errors, on time-ordered chunks, the read-back is the concatenation *)
+Lemma read_f_no_error : forall (ls : list (list (Z * Z))) prev bound,
+  ochain prev (map (map fst) ls) ->
+  match bound, prev with
+  | Some x, Some p => x <= p + 1
+  | Some _, None => False
+  | None, _ => True
+  end ->
+  read_f (map (fun l => (l, false)) ls) bound = (concat ls, false).
+Proof.
+  induction ls as [|l r IH]; intros prev bound Hc Hb; [reflexivity|].
+  cbn [map ochain] in Hc. destruct Hc as (Hne & Hs & Hp & Hc).
+  assert (Hlne : l <> []) by (intro E; rewrite E in Hne; cbn in Hne; congruence).
+  cbn [map read_f concat].
+  rewrite read_chunk_all; [|exact Hlne|].
+  2:{ destruct bound as [x|]; [|exact I]. destruct prev as [p|]; [|contradiction].
+      rewrite Forall_map in Hp. eapply Forall_impl; [|exact Hp]. intros s H; cbv beta in H. lia. }
+  destruct r as [|l' r']; [cbn; rewrite app_nil_r; reflexivity|].
+  change (map (fun l0 : list (Z * Z) => (l0, false)) (l' :: r')) with
+         ((l', false) :: map (fun l0 : list (Z * Z) => (l0, false)) r').
+  change ((l', false) :: map (fun l0 : list (Z * Z) => (l0, false)) r') with
+         (map (fun l0 : list (Z * Z) => (l0, false)) (l' :: r')).
+  change 0 with (fst (0, 0)) in Hc. rewrite last_map in Hc.
+  rewrite (IH (Some (fst (last l (0, 0)))) (Some (fst (last l (0, 0)) + 1)) Hc (Z.le_refl _)).
+  reflexivity.
+Qed.
+
+Lemma strictly_inc_sorted l : strictly_inc l = true -> StronglySorted Z.lt l.
+Proof.
+  induction l as [|a l IH]; intros H; [constructor|].
+  assert (Hl : strictly_inc l = true /\ Forall (Z.lt a) l).
+  { clear IH. revert a H. induction l as [|b l IHl]; intros a H; [split; [reflexivity|constructor]|].
+    change (strictly_inc (a :: b :: l)) with ((a <? b) && strictly_inc (b :: l)) in H.
+    apply andb_true_iff in H as [Hab H]. apply Z.ltb_lt in Hab.
+    split; [exact H|]. constructor; [exact Hab|]. destruct (IHl b H) as [_ F].
+    eapply Forall_impl; [|exact F]. intros x Hx; cbv beta in Hx. lia. }
+  destruct Hl as [Hl F]. constructor; [apply IH; exact Hl|exact F].
+Qed.
+
+Lemma chain_ok_ochain : forall ls prev, chain_ok prev ls = true -> ochain prev (map (map fst) ls).
+Proof.
+  induction ls as [|l r IH]; intros prev H; [exact I|].
+  cbn [chain_ok] in H. apply andb_true_iff in H as [H Hr]. apply andb_true_iff in H as [H Hp].
+  apply andb_true_iff in H as [Hne Hs]. cbn [map ochain].
+  split; [destruct l; [discriminate|discriminate]|]. split; [apply strictly_inc_sorted; exact Hs|].
+  split.
+  - destruct prev as [p|]; [|exact I]. rewrite Forall_map. rewrite forallb_forall in Hp.
+    rewrite Forall_forall. intros s Hin. apply Z.ltb_lt. apply Hp. exact Hin.
+  - change 0 with (fst (0, 0)). rewrite last_map. apply IH. exact Hr.
+Qed.
+
+(* the fault clause of the check's predicate holds of the model for EVERY list of chunk
+   iterators: an error of any of them is reported; if none fails (and they are time-ordered)
+   exactly their samples are read, without error *)
+Lemma fault_pred : forall chunks orig,
+  pred_ok (CFault chunks orig (fst (read_faulty chunks)) (snd (read_faulty chunks))) = true.
+Proof.
+  intros chunks orig. unfold pred_ok.
+  destruct (existsb snd chunks) eqn:Ex.
+  - apply existsb_exists in Ex as (c & Hin & Hc).
+    assert (He : Exists (fun c : list (Z * Z) * bool => snd c = true) chunks)
+      by (apply Exists_exists; exists c; split; assumption).
+    unfold read_faulty. destruct chunks as [|c0 r]; [inversion He|].
+    apply (read_f_error_reported _ None He).
+  - destruct (chain_ok None (map fst chunks) && negb (Nat.eqb (length chunks) 0)) eqn:Ec; [|reflexivity].
+    apply andb_true_iff in Ec as [Hc Hne].
+    assert (Hall : chunks = map (fun l => (l, false)) (map fst chunks)).
+    { clear Hc Hne. induction chunks as [|[l e] r IH]; [reflexivity|].
+      cbn [existsb snd] in Ex. apply orb_false_iff in Ex as [-> Ex]. cbn [map fst]. rewrite <- (IH Ex). reflexivity. }
+    destruct chunks as [|c0 r]; [cbn in Hne; discriminate|].
+    unfold read_faulty. rewrite Hall.
+    set (ls := map fst (c0 :: r)) in *.
+    assert (Hls : ls <> []) by (unfold ls; discriminate).
+    destruct ls as [|l0 lr] eqn:El; [congruence|].
+    change (map (fun l : list (Z * Z) => (l, false)) (l0 :: lr)) with
+           ((l0, false) :: map (fun l : list (Z * Z) => (l, false)) lr).
+    change ((l0, false) :: map (fun l : list (Z * Z) => (l, false)) lr) with
+           (map (fun l : list (Z * Z) => (l, false)) (l0 :: lr)).
+    rewrite (read_f_no_error (l0 :: lr) None None (chain_ok_ochain _ _ Hc) I). cbn [fst snd negb andb].
+    rewrite map_map. cbn [fst]. rewrite map_id. apply samples_eqb_refl.
+Qed.
+
+(* for the aggregates DownsampleRaw produces: whichever sub-chunk iterators fail (each after
+   yielding anything), the read-back is the aggregate's values or an error *)
+Lemma raw_fault res nc data (f : achunk -> option (list (Z * Z))) :
+  (f = k_count \/ f = k_sum \/ f = k_min \/ f = k_max) ->
+  valid_raw res data ->
+  exists out, downsample_raw_m res nc data = Some out /\
+    forall chunks,
+      Forall2 (fun o (c : list (Z * Z) * bool) => snd c = true \/ c = (o, false))
+              (map (fun c => olist (f c)) out) chunks ->
+      snd (read_faulty chunks) = true \/
+      fst (read_faulty chunks) = concat (map (fun c => olist (f c)) out).
+Proof.
+  intros Hf Hv. destruct (raw_structure res nc data Hv) as (batches & E & Hcat & Hgood & Hsep).
+  exists (map (float_batch cw res) batches). split; [exact E|]. intros chunks HF.
+  destruct Hv as (Hr & _ & _).
+  destruct (labels_chain res Hr batches None Hgood Hsep I) as [Hc _].
+  set (origs := map (fun c => olist (f c)) (map (float_batch cw res) batches)) in *.
+  assert (Hoc : ochain None (map (map fst) origs)).
+  { unfold origs. rewrite !map_map. erewrite map_ext; [exact Hc|]. intros b. cbv beta.
+    assert (P : forall (g : fagg -> Z) outs, map fst (proj g outs) = map fst outs)
+      by (intros g outs; unfold proj; rewrite map_map; reflexivity).
+    unfold labels, float_batch. destruct (downsample_batch cw res b) as [outs lt].
+    destruct Hf as [->|[->|[->| ->]]]; cbn [k_count k_sum k_min k_max olist fst]; apply P. }
+  destruct (Exists_dec (fun c : list (Z * Z) * bool => snd c = true) chunks
+              ltac:(intros [l e]; destruct e; [left; reflexivity|right; discriminate])) as [He|Hn].
+  - left. unfold read_faulty. destruct chunks as [|c r]; [inversion He|].
+    apply (read_f_error_reported _ None He).
+  - right. assert (Hall : chunks = map (fun l => (l, false)) origs).
+    { clear Hoc. induction HF as [|o c os cs Hoc' _ IH]; [reflexivity|].
+      assert (Hn' : ~ Exists (fun c : list (Z * Z) * bool => snd c = true) cs)
+        by (intro X; apply Hn; right; exact X).
+      destruct Hoc' as [Ht| ->]; [exfalso; apply Hn; left; exact Ht|].
+      cbn [map]. rewrite (IH Hn'). reflexivity. }
+    rewrite Hall. unfold read_faulty. destruct origs as [|o r]; [reflexivity|].
+    change (map (fun l : list (Z * Z) => (l, false)) (o :: r)) with
+           ((o, false) :: map (fun l : list (Z * Z) => (l, false)) r).
+    change ((o, false) :: map (fun l : list (Z * Z) => (l, false)) r) with
+           (map (fun l : list (Z * Z) => (l, false)) (o :: r)).
+    rewrite (read_f_no_error (o :: r) None None Hoc I). reflexivity.
+Qed.
